@@ -1260,4 +1260,24 @@ theorem cell_chain (hL : Lawful S m) (hch : chainModel m) :
               | exc k n => cases k <;> (simp only [Bool.false_eq_true, if_false]; omega)
 end chain
 
+
+/-! ### `_evaluating` is restored on EVERY path out of `evaluate` (value, cycle report, failure, recursion) -/
+theorem evaluating_restored {σ : Type} (S : Store σ) (sem : Sem) (fuel : Nat) (c : Ctx σ) (a : Addr) :
+    (evalCell S sem fuel c a).1.evaluating = c.evaluating := by
+  cases fuel with
+  | zero => simp [evalCell]
+  | succ fuel =>
+    simp only [evalCell]
+    split
+    · rfl
+    · split
+      · rfl
+      · split
+        · rfl
+        · generalize evalFx S sem (evalCell S sem fuel) _ _ = p
+          obtain ⟨c2, r⟩ := p
+          cases r with
+          | val v => rfl
+          | exc k n => cases k <;> rfl
+
 end XlVerif.Lemmas.C06
